@@ -38,7 +38,7 @@ func init() {
 		},
 		Run: run,
 		Floors: func(t string) map[string]int64 {
-			return map[string]int64{"orbit.reversed_single_ring": 1000, "orbit.unclosed": 1000, "orbit.all_reversed": 500, "shape.with_holes": 500, "shape.multipolygon": 300,
+			return map[string]int64{"orbit.reversed_single_ring": 1000, "orbit.unclosed": 1000, "orbit.all_reversed": 500, "shape.with_holes": 500, "shape.hole_inside_the_box_of_another_hole": 150, "shape.multipolygon": 300,
 				"centroid.MultiPolygon": 1000, "centroid.Polygon": 500, "area.exact_equal": 5000, "area.float": 1000, "op.area": 500, "op.centroid": 500,
 				"distance.on_line": 500, "distance.beyond_end": 500, "distance.zero_length_segment": 200, "buffer": 500, "length": 1000, "line.long": 300, "storage.rings_share_one_backing_array": 1000, "shape.far_from_origin": 1000, "shape.float_far_from_origin": 500, "shape.island_in_a_hole_of_another_member": 100, "line.very_long": 100, "line.extreme_magnitude": 200}
 		},
@@ -56,7 +56,8 @@ func run(c *core.Ctx, idx int) {
 // base is a valid polygon in canonical spelling: ring 0 the shell (ccw),
 // the others holes (ccw as generated), all open (no closing vertex).
 type base struct {
-	rings []geom.Path
+	rings   []geom.Path
+	notched bool // two holes, one inside the other's bounding box
 }
 
 func rect(x0, y0, x1, y1 float64) geom.Path {
@@ -101,6 +102,13 @@ func genBase(r *gen.R, ox float64) base {
 	if r.Chance(0.3) {
 		nh = 0
 	}
+	if s >= 6 && r.Chance(0.2) {
+		// two disjoint holes of which the smaller lies inside the bounding box of the larger
+		// one without lying inside it: a C- or L-shaped hole and a hole in its notch
+		b.rings = append(b.rings, notchedHoles(r, ox, s)...)
+		b.notched = true
+		return b
+	}
 	// 2x2 cells inside [-s,s]^2
 	cells := r.Perm(4)
 	for k := 0; k < nh; k++ {
@@ -126,6 +134,65 @@ func genBase(r *gen.R, ox float64) base {
 		b.rings = append(b.rings, hole)
 	}
 	return b
+}
+
+// notchedHoles returns a rectilinear C- or L-shaped hole inside [-s+1,s-1]^2 (centred at
+// (ox,0), in one of the eight axis orientations) and a small hole placed in its notch,
+// strictly inside the bounding box of the first and strictly disjoint from it. Both ccw.
+func notchedHoles(r *gen.R, ox, s float64) []geom.Path {
+	a, bb := float64(r.IntRange(4, int(s)-1)), float64(r.IntRange(4, int(s)-1))
+	x0, x1, y0, y1 := -a, a, -bb, bb
+	xn := float64(r.IntRange(int(x0)+1, int(x1)-3))
+	var big geom.Path
+	var nx0, nx1, ny0, ny1 float64 // the open notch
+	if r.Bool() {
+		yn0 := float64(r.IntRange(int(y0)+1, int(y1)-4))
+		yn1 := float64(r.IntRange(int(yn0)+3, int(y1)-1))
+		big = geom.Path{{X: x0, Y: y0}, {X: x1, Y: y0}, {X: x1, Y: yn0}, {X: xn, Y: yn0}, {X: xn, Y: yn1}, {X: x1, Y: yn1}, {X: x1, Y: y1}, {X: x0, Y: y1}}
+		nx0, nx1, ny0, ny1 = xn, x1, yn0, yn1
+	} else {
+		ym := float64(r.IntRange(int(y0)+1, int(y1)-3))
+		big = geom.Path{{X: x0, Y: y0}, {X: x1, Y: y0}, {X: x1, Y: ym}, {X: xn, Y: ym}, {X: xn, Y: y1}, {X: x0, Y: y1}}
+		nx0, nx1, ny0, ny1 = xn, x1, ym, y1
+	}
+	hx0, hy0 := nx0+0.5, ny0+0.5
+	hx1 := hx0 + 0.5*float64(r.IntRange(1, int(2*(nx1-0.5-hx0))))
+	hy1 := hy0 + 0.5*float64(r.IntRange(1, int(2*(ny1-0.5-hy0))))
+	small := rect(hx0, hy0, hx1, hy1)
+	if r.Chance(0.3) {
+		small = small[:3]
+	}
+	m := r.Intn(8)
+	out := []geom.Path{big, small}
+	for _, ring := range out {
+		for i, p := range ring {
+			x, y := p.X, p.Y
+			if m&1 != 0 {
+				x = -x
+			}
+			if m&2 != 0 {
+				y = -y
+			}
+			if m&4 != 0 {
+				x, y = y, x
+			}
+			ring[i] = geom.Point{X: ox + x, Y: y}
+		}
+		var a2 float64
+		for i := range ring {
+			j := (i + 1) % len(ring)
+			a2 += ring[i].X*ring[j].Y - ring[j].X*ring[i].Y
+		}
+		if a2 < 0 {
+			for i, j := 0, len(ring)-1; i < j; i, j = i+1, j-1 {
+				ring[i], ring[j] = ring[j], ring[i]
+			}
+		}
+	}
+	if r.Bool() {
+		out[0], out[1] = out[1], out[0]
+	}
+	return out
 }
 
 // exact measures of a canonical base: area and centroid as rationals.
@@ -204,6 +271,9 @@ func runPolygon(c *core.Ctx) {
 	nr := 0
 	for m := range bases {
 		bases[m] = genBase(r, float64(m)*200)
+		if bases[m].notched {
+			c.Count("shape.hole_inside_the_box_of_another_hole")
+		}
 		a, cx, cy := bases[m].measures()
 		totalA.Add(totalA, a)
 		mX.Add(mX, new(big.Rat).Mul(a, cx))
